@@ -314,8 +314,23 @@ func (check typecheck) roundConst(n, o *node) {
 	n.rval, _ = check.convertConst(n.rval, t)
 }
 
+// zeroConst returns true if n is a numeric constant, untyped or typed, equal to zero.
 func zeroConst(n *node) bool {
-	return n.typ.untyped && constant.Sign(n.rval.Interface().(constant.Value)) == 0
+	if !n.rval.IsValid() {
+		return false
+	}
+	c, ok := n.rval.Interface().(constant.Value)
+	if !ok {
+		c = typedNumConst(n)
+	}
+	if c == nil {
+		return false
+	}
+	switch c.Kind() {
+	case constant.Int, constant.Float, constant.Complex:
+		return constant.Sign(c) == 0
+	}
+	return false
 }
 
 func (check typecheck) index(n *node, max int) error {
